@@ -276,7 +276,7 @@ let node_cfg (p : string array) : Node.ncfg =
     c_key = nz p.(7);
     c_trusted = (if p.(8) = "-" then [] else L.map nz (split '+' p.(8)));
     c_algos = parse_algos p.(9);
-    c_advertise = (if Array.length p > 10 && String.length p.(10) > 3 && String.sub p.(10) 0 3 = "adv" then [nz (String.sub p.(10) 3 (String.length p.(10) - 3))] else []);
+    c_advertise = (if Array.length p > 10 && String.length p.(10) > 3 && String.sub p.(10) 0 3 = "adv" then L.map nz (split '+' (String.sub p.(10) 3 (String.length p.(10) - 3))) else []);
     c_hkfault = (Array.length p > 10 && p.(10) = "hkf") }
 
 let node_op tok : NodeSys.sop * (BinNums.coq_N * BinNums.coq_N) list =
